@@ -74,6 +74,7 @@ type listStep struct {
 	stmts   []string // statements to execute
 	result  string   // expected R payload ("" none)
 	result2 string   // a second R line
+	keys    string   // a K line precedes R: the string forms the model assumed (run skipped when they differ)
 	alt     string   // twin runs: the statements of the second run's last operation
 	pattern bool     // the fatal operation sits in the pattern of a following rule
 	twin    bool     // the last operation is executed in two runs whose endings are compared
@@ -128,10 +129,14 @@ func sortedCopy(l []HV) []HV {
 }
 
 func strForm2(v HV) string {
-	if v.K == 's' {
+	switch v.K {
+	case 's':
 		return v.Str
+	case 'n':
+		return fmtNum(v.Num)
 	}
-	return fmtNum(v.Num)
+	// null, booleans, containers: `"" + v` is the empty string
+	return ""
 }
 
 // step applies one operation to the model and renders its statements.
@@ -220,7 +225,22 @@ func (m *listModel) step(op *LOp) (listStep, error) {
 		return listStep{stmts: []string{R(H + ".contains(neverset)"), "print \"Q\", [" + strings.Join(cmps, ", ") + "]"}, q: true}, nil
 	case "sort":
 		if !sortKeyOK(*l) {
-			return listStep{}, errUnsupported{"sort needs numbers and strings"}
+			// elements that are neither numbers nor strings: their string form is
+			// taken to be what the language itself gives for `"" + element`; the
+			// run prints those forms first (K line) and the sort is only judged
+			// when they are the ones the model sorted by
+			for _, v := range *l {
+				if v.K == 'n' && math.IsNaN(v.Num) {
+					return listStep{}, errUnsupported{"the position of not-a-number in a sort is not fixed by the statement"}
+				}
+			}
+			forms := make([]string, n)
+			keys := make([]HV, n)
+			for i, v := range *l {
+				forms[i] = fmt.Sprintf("\"\" + %s[%d]", H, i)
+				keys[i] = HV{K: 's', Str: strForm2(v)}
+			}
+			return listStep{stmts: []string{"print \"K\", [" + strings.Join(forms, ", ") + "]", R(H + ".sort()")}, keys: canonList(keys), result: "[" + canonList(sortedCopy(*l)) + "]"}, nil
 		}
 		return listStep{stmts: []string{R(H + ".sort()")}, result: "[" + canonList(sortedCopy(*l)) + "]"}, nil
 	case "bulk-push":
@@ -256,6 +276,23 @@ func (m *listModel) step(op *LOp) (listStep, error) {
 		meth := strings.TrimPrefix(op.Kind, "bulk-")
 		// the popped values are summed (each must be the right element), then the length is read
 		return listStep{stmts: []string{fmt.Sprintf("bs = 0\nfor (bi = 0; bi < %d; bi++) { if (%s.length() > 0) { bs += %s.%s() } }", cnt, H, H, meth), R("bs"), R(H + ".length()")}, result: "[" + fmtNum(sum) + "]", result2: "[" + strconv.Itoa(len(*l)) + "]"}, nil
+	case "lit-assign":
+		// an index write (or a variable assignment) used as an item of an array
+		// literal: the new array holds the assigned value, not the assigned-to
+		// slot, so a later write to either leaves the other alone
+		v, ok := parseLit(op.Lit)
+		if !ok || v.isContainer() {
+			return listStep{}, errUnsupported{"literal"}
+		}
+		if op.Idx < 0 {
+			// through a variable
+			return listStep{stmts: []string{"kept = [nv = " + op.Lit + ", 8]", "nv = \"other\"", R("kept"), "kept[0] = \"changed\"", R("nv")}, result: "[[" + v.canon() + ",8]]", result2: "[\"other\"]"}, nil
+		}
+		if op.Idx >= n {
+			return listStep{}, errUnsupported{"index"}
+		}
+		(*l)[op.Idx] = v
+		return listStep{stmts: []string{fmt.Sprintf("kept = [%s[%d] = %s, 8]", H, op.Idx, op.Lit), "kept[0] = \"changed\"", "kept.push(9)", R("kept")}, result: "[[\"changed\",8,9]]"}, nil
 	case "sort-store":
 		// keep the sorted copy, change it, and look at the original again
 		if !sortKeyOK(*l) {
@@ -428,6 +465,7 @@ func runListCase(c *ListCase, keep bool) Outcome {
 		op    int
 		q     bool
 		fatal bool
+		soft  bool
 	}
 	var want []exp
 	var sb strings.Builder
@@ -448,6 +486,9 @@ func runListCase(c *ListCase, keep bool) Outcome {
 			k = c.Ops[i].Nested
 			o.Probes["nested_calls"]++
 		}
+		if st.keys != "" {
+			o.Probes["sort_of_mixed_kinds"]++
+		}
 		kinds[k] = true
 		for _, s := range st.stmts {
 			sb.WriteString(s + "\n")
@@ -465,6 +506,9 @@ func runListCase(c *ListCase, keep bool) Outcome {
 		if st.q {
 			want = append(want, exp{tag: "R", op: i, q: true}, exp{tag: "Q", op: i})
 		} else if st.result != "" {
+			if st.keys != "" {
+				want = append(want, exp{tag: "K", vals: []string{st.keys}, op: i, soft: true})
+			}
 			want = append(want, exp{tag: "R", vals: []string{st.result}, op: i})
 			if st.result2 != "" {
 				want = append(want, exp{tag: "R", vals: []string{st.result2}, op: i})
@@ -559,6 +603,10 @@ func runListCase(c *ListCase, keep bool) Outcome {
 		}
 		for k := range vals {
 			if vals[k] != w.vals[k] {
+				if w.soft {
+					o.Skipped = "the string forms (\"\" + element) of the elements of a mixed array are not the ones the model assumed"
+					return finish()
+				}
 				if w.tag == "R" {
 					o.Class = "method-result-mismatch"
 					o.Msg = fmt.Sprintf("operation #%d `%s`: result %s, the ideal list gives %s", w.op, opText(w.op), vals[k], w.vals[k])
@@ -700,7 +748,9 @@ func genListCase(t *Tape, maxOps int, bulk bool) *ListCase {
 		if bulk {
 			bw = 6
 		}
-		switch t.Weighted(8, 5, 5, 3, 4, 4, 4, 3, 8, 1, 2, bw, bw, bw) {
+		switch t.Weighted(8, 5, 5, 3, 4, 4, 4, 3, 8, 1, 2, bw, bw, bw, 2) {
+		case 14:
+			op.Kind, op.Lit, op.Idx = "lit-assign", listScalarLits[t.Draw(len(listScalarLits))], t.Draw(ln+1)-1
 		case 11:
 			op.Kind, op.Idx = "bulk-push", []int{20, 70, 300, 600, 1100}[t.Draw(5)]
 		case 12:
